@@ -1614,6 +1614,17 @@ impl StreamingQueueCompressor {
                 // Get the NEW priority (after decrement) for sync tokens
                 let new_priority = *priorities.get(&sample_name).unwrap();
 
+                // Keep priorities globally monotone, as C++ AGC's single sample_priority counter is:
+                // a sample seen later must start BELOW everything pushed so far, otherwise its contigs
+                // overtake token blocks that are still queued and the composition of a synchronisation
+                // round (hence the archive) depends on timing and queue capacity.
+                {
+                    let mut next_p = self.next_priority.lock().unwrap();
+                    if *next_p >= new_priority {
+                        *next_p = new_priority - 1;
+                    }
+                }
+
                 // Drop locks before inserting sync tokens to avoid deadlock
                 drop(priorities);
 
